@@ -33,7 +33,7 @@ LEVEL_TEXT = {
     "C17": ("Hidden-state invariant over fault-laden histories observed through the guarded read-only hook after every decode call, plus emptiness at quiescence; soak runs in the thorough tier.", "5 C17"),
     "C18": ("Real-vs-real differential: shared decoder against per-endpoint projection decoders over hostile interleaved histories.", "5 C18"),
     "C19": ("Real threads parked and released at compiler-inserted callbacks (every load, store and edge of library code) by a seeded scheduler; per-thread result digests against solo runs and a "
-            "vector-clock happens-before detector over the recorded accesses.", "5 C19"),
+            "vector-clock happens-before detector over the recorded accesses; plus a second engine that interleaves the same instances on one thread with neighbour-instance floods and compares each workload with itself run alone.", "5 C19"),
     "C20": ("Fresh heap and stack contents as environment nondeterminism: every plan executed under three fill patterns with bit-identical outputs demanded, plus valgrind memcheck definedness of every "
             "output byte and branch.", "5 C20"),
 }
@@ -54,7 +54,7 @@ TECHNIQUE = {
     "C16": "deterministic simulation: lossy network + operator events; reference map checked after every step",
     "C17": "deterministic simulation with fault injection; hidden pending table (guarded hook) vs reference model after every call",
     "C18": "deterministic simulation: shared vs per-endpoint projection decoders (real-vs-real differential) over hostile histories",
-    "C19": "deterministic simulation of thread schedules: seeded scheduler at instrumented loads/stores + happens-before race detector",
+    "C19": "deterministic simulation of thread schedules: seeded scheduler at instrumented loads/stores + happens-before race detector; seeded single-thread interleaving of instances with neighbour floods (result differential)",
     "C20": "deterministic simulation of fresh-memory contents: fill-pattern differential + valgrind definedness",
 }
 
